@@ -253,10 +253,12 @@ func buildReverseSearchers(
 
 	case UseReverseSuffix:
 		suffixLiterals := extractor.ExtractSuffixes(re)
-		searcher, err := NewReverseSuffixSearcher(nfaEngine, suffixLiterals, dfaConfig, hasDotStarPrefix(re))
+		literalShape := isDotStarLiteral(re, suffixLiterals.LongestCommonSuffix())
+		searcher, err := NewReverseSuffixSearcher(nfaEngine, suffixLiterals, dfaConfig, literalShape)
 		if err != nil {
 			result.finalStrategy = UseDFA
 		} else {
+			searcher.SetLineBounded(!canMatchNewline(re))
 			result.reverseSuffixSearcher = searcher
 		}
 
